@@ -23,7 +23,7 @@ ALL_OPTS = dict(include_pitch_spelling=True, include_key_signature=True, include
                 include_metrical_position=True, include_grace_notes=True, include_staff=True)
 
 
-def extract(score, part):
+def extract(score, part, unstated=0):
     """The abstract content of a part in the shape NoteArray.tla reads (project)."""
     T = part.last_point.t
     cfg = {"T": T, "qtab": [[int(a), int(b)] for a, b in part.quarter_durations()],
@@ -43,7 +43,7 @@ def extract(score, part):
                       "prev": index.get(id(o.tie_prev), 0) if o.tie_prev is not None else 0,
                       "grace": 1 if isinstance(o, score.GraceNote) else 0,
                       "gtype": o.grace_type if isinstance(o, score.GraceNote) else "",
-                      "voice": o.voice or 0, "staff": o.staff or 0, "rest": 1 if rest else 0})
+                      "voice": unstated if o.voice is None else o.voice, "staff": o.staff or 0, "rest": 1 if rest else 0})
     return {"cfg": cfg, "notes": notes}
 
 
@@ -66,7 +66,7 @@ def cmp_rows(report, what, arr, rows, opts, check_voice=True):
         g = arr[gi]
         cols = [("id", str(g["id"]), e["id"]), ("onset_div", int(g["onset_div"]), e["onset_div"]),
                 ("duration_div", int(g["duration_div"]), e["duration_div"]), ("pitch", int(g["pitch"]), e["pitch"])]
-        if check_voice and e["voice"] != 0:
+        if check_voice and e["voice"] != -1:        # (-1: the score states no voice; a stated voice may be 0)
             cols.append(("voice", int(g["voice"]), e["voice"]))
         names = arr.dtype.names
         if "step" in names:
@@ -129,11 +129,17 @@ def main(chk):
                                              pickup=nm >= 2 and rng.random() < 0.4, ts_change=rng.random() < 0.4,
                                              no_voice=rng.choice([0, 0, 0.3]), no_staff=rng.choice([0, 0, 0.3]),
                                              staves=rng.choice([1, 2]), max_notes=12, n_measures=nm))
+        if rng.random() < 0.2:
+            # voices numbered from 0 (hand-built parts, parts made from a note array with a zero-based voice column): a stated
+            # voice 0 is a voice like any other, not a missing one
+            for o in parts[-1].iter_all(score.GenericNote, include_subclasses=True):
+                if o.voice is not None:
+                    o.voice -= 1
         if rng.random() < 0.25:
             parts[0].use_musical_beat()
         sc = score.Score(partlist=parts, id="S%d" % cid)
         scores[cid] = sc
-        cases.append({"cid": cid, "unique_ids": rng.randint(0, 1), "parts": [extract(score, p) for p in parts]})
+        cases.append({"cid": cid, "unique_ids": rng.randint(0, 1), "parts": [extract(score, p, unstated=-1) for p in parts]})
     shards = 8
     jobs = []
     for k in range(shards):
